@@ -129,6 +129,15 @@ def install(it):
         if isinstance(s, str):
             return P.gff3_kw_pat.match(s)
         lead = s.atoms[0].s if s.atoms and isinstance(s.atoms[0], Lit) else ""
+        pat = P.gff3_kw_pat.pattern
+        if pat != r"\w+=":
+            # the model below is the prefix semantics of THE pattern r"\w+="; for any other pattern only a match that
+            # lies strictly inside the leading literal is decided (what follows cannot change it for a greedy
+            # character-class prefix), everything else is undecided
+            m = P.gff3_kw_pat.match(lead)
+            if m is not None and m.end() < len(lead) and P.gff3_kw_pat.match(lead + "\x00") is not None and P.gff3_kw_pat.match(lead + "\x00").end() == m.end():
+                return m
+            raise Undecided("regex %r: prefix match on a string with holes" % (pat,))
         m = re.match(r"\w+=", lead)
         if m:
             return m
@@ -151,6 +160,14 @@ def install(it):
                 out.append(at)
             elif isinstance(at, Val) and "%" in at.excl:
                 out.append(at)
+            elif isinstance(at, Val):
+                # a hole that may hold '%': without one the text is unchanged (A-U); with one the decoded text is
+                # some other string - over-approximated by a fresh hole (clauses about the value then fail and the
+                # model, a value holding '%', is replayed natively)
+                if Ctx.current.branch_light(z3.Contains(at.v, z3.StringVal("%")), "value-holds-percent"):
+                    out.append(Val(Ctx.current.fresh_str("unquoted"), tag="unquoted"))
+                else:
+                    out.append(Val(at.v, excl=at.excl | {"%"}, nonempty=at.nonempty, excl_first=at.excl_first, excl_last=at.excl_last, tag=at.tag))
             else:
                 raise Undecided("unquote of %r" % (at,))
         interp.ctx.assumed_models.add("contract:urllib.parse.unquote(pct(u)) == u")
